@@ -432,3 +432,10 @@ def parse_dump(s):
             else: cur += ch
         out[int(head.strip()[1:])] = m
     return out
+
+
+def from_json(x):
+    """JSON (lists) -> AST (tuples); dict keys of inputs back to ints"""
+    if isinstance(x, list): return tuple(from_json(y) for y in x)
+    if isinstance(x, dict): return {(int(k) if isinstance(k, str) and k.isdigit() else k): from_json(v) for k, v in x.items()}
+    return x
